@@ -66,6 +66,35 @@ def param_family_case(draw):
 
 
 @st.composite
+def wide_family_case(draw):
+    """models with 20 variables whose ordered variable lists have the same length, first and last name but place the
+    shared names at different columns (a, b, x[0..16], z  versus  a, x[0..17], z)"""
+    variant = draw(st.sampled_from(["N", "M"]))
+    if variant == "N":
+        env = {"scalars": [{"name": "a"}, {"name": "b"}, {"name": "z"}], "vectors": [{"name": "x", "n": 17}], "matrices": [], "params": []}
+        order = ["a", "b"] + [f"x[{i}]" for i in range(17)] + ["z"]
+    else:
+        env = {"scalars": [{"name": "a"}, {"name": "z"}], "vectors": [{"name": "x", "n": 18}], "matrices": [], "params": []}
+        order = ["a"] + [f"x[{i}]" for i in range(18)] + ["z"]
+    i = draw(st.integers(0, 16))
+    xi = ["elem", ["vvar", "x"], i]
+    recipe = draw(st.sampled_from([
+        ["bin", "*", ["var", "a"], xi],                                            # d/da = x[i]: a bare variable is compiled
+        ["bin", "+", ["bin", "*", ["var", "z"], xi], ["bin", "**", ["var", "a"], ["const", "pyint", 2]]],
+        ["bin", "*", xi, ["elem", ["vvar", "x"], (i + 3) % 17]],
+    ]))
+    pts = draw(gen.points(order, k=2))
+    part = draw(st.sampled_from(["c03", "c03", "c01", "c17"]))
+    if part == "c01":
+        return [part, {"env": env, "expr": recipe, "order": order, "stratum": "decl", "points": pts, "config": "default"}]
+    if part == "c17":
+        return [part, {"env": env, "expr": recipe, "order": order, "points": pts, "config": "default", "sense": "minimize",
+                       "stratum": "general", "vstratum": "decl"}]
+    return [part, {"env": env, "exprs": [recipe], "strata": ["general"], "order": order, "vstratum": "decl", "points": pts,
+                   "config": "default"}]
+
+
+@st.composite
 def bound_family_case(draw):
     """tiny LPs that differ ONLY in declared bounds: `x >= 0` written as a bare comparison, x absent from the objective"""
     lbx = draw(st.sampled_from([None, -5, 0, -1]))
@@ -96,7 +125,11 @@ def cases(draw):
         items = []
         pfam = draw(st.integers(0, 2)) == 0
         bfam = (not pfam) and draw(st.integers(0, 3)) == 0
+        wfam = (not pfam) and (not bfam) and draw(st.integers(0, 4)) == 0
         for _ in range(k + 1):
+            if wfam and draw(st.booleans()):
+                items.append(draw(wide_family_case()))
+                continue
             if pfam and draw(st.booleans()):
                 items.append(draw(param_family_case()))
                 continue
